@@ -1695,6 +1695,8 @@ class Models(object):
                 kinds.append('i')
             elif a is complex:
                 kinds.append('c')
+            elif dtype_target_kind(a) is not None:
+                kinds.append(dtype_target_kind(a))           # float / np.float64 / 'complex128' .. given as a type or a name
             else:
                 kinds.append(self.kind_of(a))
         if 'O' in kinds:
